@@ -256,15 +256,23 @@ class NumberedObjectCollection(ABC):
         if any(obj is member for member in self._objects):
             # already a member: there is nothing to append, and it must not be renumbered
             return number
+        # the number is found before anything changes: a step that leads to no number (0, or down
+        # past 1) raises with the object still as it was, not yet linked to this problem
+        try:
+            self.check_number(number)
+            conflict = False
+        except NumberConflictError:
+            conflict = True
+            number = self.request_number(number, step)
+            if number <= 0:
+                raise ValueError(
+                    f"No number above 0 is available from {obj.number} in steps of {step}"
+                )
         if self._problem:
             obj.link_to_problem(self._problem)
-        try:
-            self.append(obj)
-        except NumberConflictError:
-            number = self.request_number(number, step)
+        if conflict:
             obj.number = number
-            self.append(obj)
-
+        self.append(obj)
         return number
 
     def request_number(self, start_num=1, step=1):
